@@ -7,12 +7,21 @@
       assemble_refines_spec : forall P A shapes tri, wf_input P A shapes ->
           Model.assemble (encode P) (encode A) shapes tri
           = (encode (Spec.kkt_matrix P A shapes tri), Spec.kkt_maps P A shapes tri)
-    It is validated exhaustively in small scope and on random large layouts by the
-    correspondence (checker [Kkt.Check.c_assemble], code 3 = Model differs). *)
-From Coq Require Import List ZArith Reals Permutation.
+    Proved towards it (Triu): [C11_fill_script] (count -> prefix sums -> puts -> backshift is
+    correct for every script), [C11_triu_script_refines_spec_partial] (running the Spec's own
+    entry list as the script gives the Spec matrix and every tag position, under
+    [buckets_sorted]), [C11_cones_fill_script] (the cone loop of the model IS that script run,
+    all four shapes).  Missing links, exactly: (a) [buckets_sorted] from [wf_input];
+    (b) [assemble_colcounts] = [script_counts] (cone part done: [C11_cones_colcounts]; P/A/missing-diag
+    part and add_counts-from-zero = script_counts missing); (c) [fill_block]/[fill_missing_diag] on the raw
+    encoding = script run over [eP]/[eMiss]/[eA]; (d) diag_full/diagP extraction = [pos_rc];
+    (e) the Tril order.  All of them remain validated by the correspondence
+    (checker [Kkt.Check.c_assemble], code 3 = Model differs). *)
+From Coq Require Import List ZArith Reals Permutation Lia.
 Import ListNotations.
 Require Import Clarabel.Base.Ops Clarabel.Csc.Model Clarabel.Kkt.Spec Clarabel.Kkt.Model Clarabel.Kkt.Stmts.
 Require Import Clarabel.Kkt.LemmasSchur Clarabel.Kkt.LemmasVals Clarabel.Kkt.LemmasSpec Clarabel.Kkt.LemmasDiag.
+Require Import Clarabel.Kkt.LemmasWf Clarabel.Kkt.LemmasFill Clarabel.Kkt.LemmasRefine Clarabel.Kkt.LemmasCone Clarabel.Kkt.LemmasCount.
 
 (** eliminating the auxiliary variables of a sparse expansion reproduces the cone's H *)
 Theorem C11_soc_expansion_schur : stmt_soc_expansion_schur.
@@ -38,6 +47,26 @@ Proof. exact maps_partition_partial_ok. Qed.
 Theorem C11_boolean_hyps_sound : stmt_boolean_hyps_sound.
 Proof. exact boolean_hyps_sound_ok. Qed.
 
+(** the hypotheses of the partition theorem, derived; the partition theorem without them *)
+Theorem C11_tags_nodup : stmt_tags_nodup.
+Proof. exact tags_nodup_ok. Qed.
+Theorem C11_cols_lt : stmt_cols_lt.
+Proof. exact cols_lt_ok. Qed.
+Theorem C11_maps_partition : stmt_maps_partition.
+Proof. exact maps_partition_ok. Qed.
+
+(** refinement, staged *)
+Theorem C11_fill_script : stmt_fill_script.
+Proof. exact fill_script_ok. Qed.
+Theorem C11_triu_script_refines_spec_partial : stmt_triu_script_refines_spec.
+Proof. exact triu_script_refines_spec_ok. Qed.
+Theorem C11_cones_fill_script : stmt_cones_fill_script.
+Proof. exact cones_fill_script_ok. Qed.
+Theorem C11_cones_colcounts : stmt_cones_colcounts.
+Proof. exact cones_colcounts_ok. Qed.
+Theorem C11_buckets_sortedb_sound : stmt_buckets_sortedb_sound.
+Proof. exact buckets_sortedb_sound_ok. Qed.
+
 (** a complete diagonal, for every layout and both triangles *)
 Theorem C11_diag_complete : stmt_diag_complete.
 Proof. exact diag_complete_ok. Qed.
@@ -54,3 +83,16 @@ Example C11_example_layout :
   /\ fill_signs (11 + 2 + 5) 11 2 (mSp (kkt_maps P A shapes Tril))
      = [1; 1; -1; -1; -1; -1; -1; -1; -1; -1; -1; -1; -1; -1; 1; -1; -1; 1]%Z.
 Proof. vm_compute. repeat split. Qed.
+(** the hypotheses of the Triu refinement step are met by the same layout *)
+Example C11_example_refinement_hyps :
+  let P := mkCsc 2 2 [[(0, 1%Z)]; [(0, 2%Z)]] in
+  let A := mkCsc 11 2 [[(0, 3%Z); (4, 5%Z)]; [(10, 7%Z)]] in
+  let shapes := [Dense 2; SocSparse 5; GenPow 2 2] in
+  wf_input P A shapes /\ buckets_sorted (kdim P A shapes) (entries_triu P A shapes).
+Proof.
+  split.
+  - repeat split; try reflexivity. intros j e He.
+    destruct j as [|[|j]]; cbn in He; [| |destruct j; contradiction];
+      destruct He as [<-|He]; try contradiction; cbn; lia.
+  - apply buckets_sortedb_sound_ok. vm_compute. reflexivity.
+Qed.
